@@ -25,3 +25,11 @@ add("C09", "rapid-generated grammars with @error x token sequences incl. lexer E
     "Generated-input search on compiled parsers: termination by step bounds (re-run at 100x before reporting), no silent acceptance, blame = end of shortest non-viable prefix, consumed symbols form a sentence of G'. Three genuine defects found this way were repaired; one residual (@error? absorbing an Error) is a listed known finding.",
     "Trusts Earley/viable-prefix computation; *! and @list are replaced by * and + in this check because facet 4 reads consumed symbols off the result tree.",
     "DESIGN.md §3 C09")
+add("C02", "rapid-generated lexer specs x texts; compiled state machine driven by the real simplelexer vs. Brzozowski-derivative reference lexer (differential on the token stream)",
+    "Generated-input search: hundreds of specs compiled end to end per run, 30 inputs each over a boundary-biased Unicode pool incl. invalid UTF-8; token type, offset and text compared with an independent derivative-based lexer up to the first error.",
+    "Trusts the reference lexer (lib/lexm) and that simplelexer decodes bytes like bytes.Reader.ReadRune; pop on an empty mode stack is treated as unspecified.",
+    "DESIGN.md §3 C02")
+add("C07", "rapid-generated mode graphs and action orderings x texts walking the mode graph; compiled lexer vs. reference lexer with explicit mode stack (differential)",
+    "Generated-input search over nested/recursive mode graphs, rules with several mode actions and emit/discard written at any position; streams compared with a reference lexer that applies mode actions in written order and the emit/discard regardless of position.",
+    "Same trusted base as C02.",
+    "DESIGN.md §3 C07")
